@@ -13,12 +13,15 @@ DEFAULT_OPTIONS = {"mode": "cli", "response_derives": "Serialize,Debug,PartialEq
 
 def render_schema(schema, rng, fmt=None):
     fmt = fmt or rng.choice(["sdl", "sdl", "json", "json-data"])
+    force_ext = fmt == "sdl-extended"       # every object split, interfaces arriving with the extension blocks
+    if force_ext:
+        fmt = "sdl"
     if fmt == "sdl":
         decl = False
         if rng.random() < 0.2:
             decl = rng.choice([True, ["ID"], ["ID", "String"], ["Int", "Float", "Boolean"]])
         ext_r = rng.random()
-        text = render_sdl(schema, rng, extend=("all" if ext_r < 0.25 else ext_r < 0.45), comments=rng.random() < 0.3, multiline=rng.random() < 0.7, declare_builtins=decl, tags=rng.random() < 0.5)
+        text = render_sdl(schema, rng, extend=("all" if (ext_r < 0.25 or force_ext) else ext_r < 0.45), comments=rng.random() < 0.3, multiline=rng.random() < 0.7, declare_builtins=decl, tags=rng.random() < 0.5)
         ext = rng.choice(["graphql", "graphql", "graphqls", "gql"])
     else:
         text = render_json(schema, wrapped=(fmt == "json-data"), builtins=rng.choice(["none", "scalars", "all"]),
